@@ -164,7 +164,11 @@ def run_c03(ctx):
         S, M, J = ctx.rng.choice(shapes(ctx))
         B = ctx.rng.choice([1, 2, 4])
         k = ctx.rng.choice([1, 1, min(2, math.factorial(M))])
-        env, rows, ep = drive(ctx, S, M, J, B, k)
+        huge = ctx.rng.random() < 0.08  # hand-supplied durations above the sentinel (outside WF): small shapes only
+        if huge:
+            S, M, J = ctx.rng.choice([(1, 2, 1), (1, 2, 2), (1, 3, 2), (1, 3, 1)])  # S = 1, J <= M: no long waits
+            k = 1
+        env, rows, ep = drive(ctx, S, M, J, B, k, kinds=["huge"] if huge else None, wait_bias=0.0 if huge else None)
         if ep.hung or ep.empty_mask_rows:
             n += len(rows)
             ctx.count("ffsp.unfinished-skipped")
@@ -358,6 +362,8 @@ THEOREMS = {
         T("Rl4co.Ffsp.reward_eq_makespan", "proved",
           "solo: reward is written at the finishing step and equals −makespan of the schedule (durations < 999999, the sentinel)"),
         T("Rl4co.Ffsp.reward_eq_makespan_row", "proved", "row of a batch: same at the step where done.all() becomes true"),
+        T("Rl4co.Ffsp.reward_needs_duration_bound", "proved",
+          "counterexample (known finding): without the duration bound the reward is not −makespan (sentinel −999999 wins the max)"),
     ],
     "C02": [
         T("Rl4co.Ffsp.moveLoop_fuel_enough", "proved",
@@ -381,6 +387,10 @@ THEOREMS = {
         T("Rl4co.Ffsp.pad_noop", "proved", "a finished row can only be padded with wait; done, mask, clock, real-job schedule, reward value unchanged"),
         T("Rl4co.Ffsp.reward_batch_invariant", "proved",
           "reward written at the batch's last step after arbitrary padding = reward of the solo run with the same actions"),
+        T("Rl4co.Ffsp.batchMoveLoop_eq_map", "proved",
+          "the batched while-loop of _move_to_next_machine (shrinking index set) acts on every row independently"),
+        T("Rl4co.Ffsp.batchMove_eq_moveNext", "proved",
+          "with the unfinished rows selected and enough global fuel, the batched loop = per-row moveNext on every row"),
         T("Rl4co.Ffsp.pomoIdx_layout", "proved", "IndexTables: under the k-major batchify layout row j·B+b uses machine permutation j"),
         T("Rl4co.Ffsp.terminal_mask_batch_dependent", "proved",
           "counterexample (known finding): the mask of a row's terminal state differs between solo and batched runs"),
@@ -406,8 +416,8 @@ EXTRA = {
             "(the generator draws from [2, 10)); zero durations are exercised by the correspondence only"],
     "C03": ["WF.dur_lt: durations < 999999 (the schedule's 'unset' sentinel); a larger duration on an unused machine would "
             "win the max over the whole schedule+duration matrix"],
-    "C04": ["that the real batched while-loop of _move_to_next_machine equals the per-row loop is compared on every run "
-            "(clock of every row), not proved"],
+    "C04": ["the batched while-loop of _move_to_next_machine is modelled (batchMoveLoop) and proved equal to the per-row "
+            "loops; that the torch index-set code implements batchMoveLoop is compared on every run (clock of every row)"],
     "C05": ["Spec.Ffsp.expressible (the declarative class of mask-reachable schedules) is validated exhaustively against "
             "the real env on tiny instances, not proved equal to the reachable set"],
 }
